@@ -459,6 +459,35 @@ func litRune(r rune, po PrintOpts) string {
 	return fmt.Sprintf(`\x{%X}`, r)
 }
 
+// styledRune prints a literal rune in the escape style a KLit node asks for in S (empty = canonical):
+// "x2" \xHH, "xb" \x{H..}, "oct" \0OO, "name" \a \f \v \t \n \r, "punct" backslash + the ASCII punctuation
+// character. A style that cannot express the rune falls back to the canonical form.
+func styledRune(r rune, style string, po PrintOpts) string {
+	switch style {
+	case "x2":
+		if r < 0x100 {
+			return fmt.Sprintf(`\x%02X`, r)
+		}
+	case "xb":
+		if !po.ECMA {
+			return fmt.Sprintf(`\x{%X}`, r)
+		}
+	case "oct":
+		if r < 0x40 {
+			return fmt.Sprintf(`\0%02o`, r)
+		}
+	case "name":
+		if i := strings.IndexRune("\a\f\v\t\n\r", r); i >= 0 {
+			return `\` + string("afvtnr"[i])
+		}
+	case "punct":
+		if r > ' ' && r < 0x7f && !(r >= '0' && r <= '9') && !(r >= 'A' && r <= 'Z') && !(r >= 'a' && r <= 'z') {
+			return `\` + string(r)
+		}
+	}
+	return litRune(r, po)
+}
+
 type printer struct {
 	sb strings.Builder
 	po PrintOpts
@@ -496,7 +525,7 @@ func (p *printer) node(n *Node, inSeq bool) {
 	switch n.K {
 	case KLit:
 		for _, r := range n.R {
-			sb.WriteString(litRune(r, p.po))
+			sb.WriteString(styledRune(r, n.S, p.po))
 			if xok {
 				p.blank()
 			}
